@@ -83,4 +83,73 @@ def feasibleApprox (budget tol : Rat) (s : State) : Bool :=
   decide (0 ≤ s.remaining) && decide (packedWeight s ≤ budget + tol) &&
   decide (s.remaining - (budget - packedWeight s) ≤ tol) && decide ((budget - packedWeight s) - s.remaining ≤ tol)
 
+/-! ### L2: one step of the game as the documentation states it (C09)
+
+docs/environments/knapsack.md and the class docstring: an action is the index of the next item to pack;
+it is valid iff the item is not yet packed and its weight fits in the remaining budget; packing adds
+exactly that item to the packed set and lowers the remaining budget by its weight; "a trajectory
+terminates when no further item can be added to the knapsack or the chosen action is invalid"; the
+reward of an invalid action is 0, dense = value of the packed item, sparse = total value of the bag at
+the end of the episode (0 before). -/
+
+/-- the state has one `packed` flag and one value per item -/
+def WellShaped (s : State) : Prop :=
+  s.packed.length = s.weights.length ∧ s.values.length = s.weights.length
+
+instance (s : State) : Decidable (WellShaped s) := by unfold WellShaped; infer_instance
+
+/-- some item can still be added to the knapsack -/
+def anyLegal (s : State) : Bool := (List.range s.weights.length).any (fun i => decide (legal s i))
+
+/-- the documented observation: the problem data, the packed flags and "which items can be packed" -/
+def observeL2 (s : State) : Obs :=
+  { weights := s.weights, values := s.values, packed := s.packed,
+    mask := (List.range s.weights.length).map (fun i => decide (legal s i)) }
+
+/-- pack item `a`: the packed set grows by exactly `a`, the budget decreases by its weight (`rnd` = the
+rounding of that one subtraction, identity in exact arithmetic) -/
+def packL2 (rnd : Rat → Rat) (s : State) (a : Nat) : State :=
+  { s with packed := s.packed.set a true, remaining := rnd (s.remaining - s.weights.getD a 0) }
+
+def stepL2 (rnd : Rat → Rat) (dense : Bool) (s : State) (a : Nat) : State × TimeStep Obs :=
+  if legal s a then
+    let s' := packL2 rnd s a
+    if anyLegal s' then
+      (s', transition [if dense then s.values.getD a 0 else 0] (observeL2 s'))
+    else
+      (s', termination [if dense then s.values.getD a 0 else packedValue s'] (observeL2 s'))
+  else (s, termination [0] (observeL2 s))
+
+/-! ### L2: hard constraint and completeness recomputed from `packed` and `weights` only (C06) -/
+
+/-- the packed items weigh at most the budget (`remaining` is not consulted) -/
+def WithinBudget (budget : Rat) (s : State) : Prop := packedWeight s ≤ budget
+
+instance (b : Rat) (s : State) : Decidable (WithinBudget b s) := by unfold WithinBudget; infer_instance
+
+/-- the packed set cannot be extended: every unpacked item weighs more than what is left of the budget -/
+def Maximal (budget : Rat) (s : State) : Prop :=
+  ∀ i, i < s.weights.length → s.packed.getD i true = false → budget - packedWeight s < s.weights.getD i 0
+
+/-- executable form of "complete feasible solution" for implementation (float32) states: feasible within the
+tolerance and no item is legal any more -/
+def solutionApprox (budget tol : Rat) (s : State) : Bool := feasibleApprox budget tol s && !anyLegal s
+
+/-! ### L1: `RandomGenerator.__call__` (generator.py) and its certificate (C10)
+
+`weights, values = jax.random.uniform(sample_key, (2, num_items), minval=0, maxval=1)` are the draw
+parameters; `packed_items = zeros(num_items)`, `remaining_budget = total_budget`. -/
+
+def generate (numItems : Nat) (totalBudget : Rat) (weights values : List Rat) : State :=
+  { weights := weights, values := values, packed := List.replicate numItems false, remaining := totalBudget }
+
+def inUnit (xs : List Rat) : Bool := xs.all (fun x => decide (0 ≤ x) && decide (x ≤ 1))
+
+/-- the certificate evaluated on the implementation's reset states: `num_items` weights and values, all in
+[0, 1]; nothing packed; the whole budget left -/
+def instanceOK (numItems : Nat) (totalBudget : Rat) (s : State) : Bool :=
+  decide (s.weights.length = numItems) && decide (s.values.length = numItems) &&
+  decide (s.packed = List.replicate numItems false) && decide (s.remaining = totalBudget) &&
+  inUnit s.weights && inUnit s.values
+
 end Knapsack
